@@ -96,6 +96,14 @@ class Raise:
         self.exc = exc
 
 
+class SuperProxy:
+    """super() inside a method of ``owner`` with receiver ``obj``."""
+
+    def __init__(self, owner, obj):
+        self.owner = owner
+        self.obj = obj
+
+
 @dataclass
 class Frame:
     vars: dict
@@ -1445,9 +1453,33 @@ class Engine:
             if isinstance(cm, Raise):
                 yield st1, ("raise", cm.exc)
                 continue
+            if isinstance(cm, SV) and cm.hint is not None and (cm.hint, "__enter__") in self.method_models:
+                yield from self._with_protocol(node, item, cm, st1, fr)
+                continue
             if self.with_hook is None:
                 raise Unsupported(f"with statement at line {node.lineno} without a manager model")
             yield from self.with_hook(self, node, item, cm, st1, fr)
+
+    def _with_protocol(self, node, item, cm, st, fr):
+        """The context-manager protocol for managers whose __enter__/__exit__ are modelled (and never
+        suppress exceptions): enter, bind, body, exit on every way out."""
+        enter = self.method_models[(cm.hint, "__enter__")]
+        exit_ = self.method_models[(cm.hint, "__exit__")]
+        for st1, v in enter.fn(self, st, [cm], {}):
+            if isinstance(v, Raise):
+                yield st1, ("raise", v.exc)
+                continue
+            if item.optional_vars is not None:
+                rs = list(self.assign(item.optional_vars, v, st1, fr, node.lineno))
+                if len(rs) != 1 or rs[0][1] is not None:
+                    raise Unsupported("with ... as <complex target>")
+                st1 = rs[0][0]
+            for st2, ex in self.exec_block(node.body, st1, fr):
+                for st3, r in exit_.fn(self, st2, [cm, None, None, None], {}):
+                    if isinstance(r, Raise):
+                        yield st3, ("raise", r.exc)
+                    else:
+                        yield st3, ex
 
     def s_While(self, node, st, fr):
         from . import loops
@@ -1761,6 +1793,16 @@ class Engine:
         yield from go(0, st)
 
     def e_Call(self, node, st, fr):
+        if isinstance(node.func, ast.Name) and node.func.id == "super" and not node.args and not node.keywords and "super" not in st.frames[fr].vars:
+            # zero-argument super(): attribute lookup continues after the defining class in the MRO of self's class
+            frame = st.frames[fr]
+            owner = getattr(frame.closure, "owner", None)
+            a = frame.closure.src.node.args
+            first = (a.posonlyargs + a.args)[0].arg if (a.posonlyargs + a.args) else None
+            if owner is None or first is None or first not in frame.vars:
+                raise Unsupported("super() outside a method")
+            yield st, SuperProxy(owner, frame.vars[first])
+            return
         for st1, f in self.eval(node.func, st, fr):
             if isinstance(f, Raise):
                 yield st1, f
